@@ -949,14 +949,9 @@ def _poly_of(x):
 
 
 def _collapse(fr):
-    """a term that became constant goes back to an ordinary Python number"""
-    if fr.denominator == 1 and _real_abs(fr.numerator) < 2 ** 53:
-        return _real_float(fr.numerator)
-    d = fr.denominator
-    if d & (d - 1) == 0:
-        f = _real_float(fr)
-        if Fraction(f) == fr:
-            return f
+    """a term that became constant goes back to an ordinary *exact* Python number.  (Returning a float here, even for
+    dyadic values, lets later float x Fraction arithmetic outside the engine round: observed as a 4e-17 discrepancy
+    between the symbolic and the concrete evaluation of the same oracle formula.)"""
     return fr
 
 
